@@ -4,6 +4,9 @@ use crate::ctx::{Ctx, Tier};
 use serde_json::Value;
 use std::collections::BTreeMap;
 
+pub mod c08;
+pub mod c14;
+pub mod errs;
 pub mod wirecheck;
 
 pub type Guards = BTreeMap<String, u64>;
@@ -58,6 +61,9 @@ pub const COMMON_ASSUMPTIONS: &[&str] = &[
 pub fn all() -> Vec<PropDef> {
     let mut v = Vec::new();
     v.extend(wirecheck::defs());
+    v.extend(c08::defs());
+    v.extend(c14::defs());
+    v.extend(errs::defs());
     v
 }
 
